@@ -178,7 +178,7 @@ def zeros( shape, dtype=float, order = 'C'):
     if numpy.isscalar(shape):
         shape = (shape,)
 
-    if isinstance(dtype,(type, str, numpy.dtype)):
+    if dtype is None or isinstance(dtype,(type, str, numpy.dtype)):
         return numpy.zeros(shape, dtype=dtype,order=order)
 
     elif isinstance(dtype, numpy.ndarray):
@@ -207,7 +207,7 @@ def ones( shape, dtype=float, order = 'C'):
     if numpy.isscalar(shape):
         shape = (shape,)
 
-    if isinstance(dtype,(type, str, numpy.dtype)):
+    if dtype is None or isinstance(dtype,(type, str, numpy.dtype)):
         return numpy.ones(shape, dtype=dtype,order=order)
 
 
